@@ -482,3 +482,507 @@ Proof.
   - intros i Hi. rewrite !(Forall2_Qeq_nth _ _ H). apply brec_nth. exact Hi.
   - intros i Hi. rewrite (Forall2_Qeq_nth _ _ H). apply brec_last. exact Hi.
 Qed.
+
+(* ------------------------------------------------------------------ the sample store of evaluate_on *)
+Section ALfacts.
+Context {K V : Type} (keq : K -> K -> bool).
+Hypothesis keq_spec : forall a b, keq a b = true <-> a = b.
+
+Lemma keq_refl a : keq a a = true.
+Proof. apply keq_spec. reflexivity. Qed.
+
+Lemma al_get_append k k' (v : V) d :
+  al_get keq k (al_append keq k' v d) =
+  if keq k k' then al_get keq k d ++ [v] else al_get keq k d.
+Proof.
+  induction d as [|[k0 vs] r IH]; simpl.
+  - destruct (keq k k'); reflexivity.
+  - destruct (keq k' k0) eqn:E1; simpl.
+    + apply keq_spec in E1. subst k0. destruct (keq k k'); reflexivity.
+    + rewrite IH. destruct (keq k k0) eqn:E2; [|reflexivity].
+      destruct (keq k k') eqn:E3; [|reflexivity].
+      apply keq_spec in E2. apply keq_spec in E3. subst. rewrite keq_refl in E1. discriminate.
+Qed.
+
+Lemma al_keys_in x k (v : V) d :
+  In x (map fst (al_append keq k v d)) <-> x = k \/ In x (map fst d).
+Proof.
+  induction d as [|[k0 vs] r IH]; simpl.
+  - intuition.
+  - destruct (keq k k0) eqn:E1; simpl.
+    + apply keq_spec in E1. subst. intuition.
+    + rewrite IH. intuition.
+Qed.
+
+Lemma al_keys_nodup k (v : V) d :
+  NoDup (map fst d) -> NoDup (map fst (al_append keq k v d)).
+Proof.
+  induction d as [|[k0 vs] r IH]; intros H; simpl.
+  - constructor; [intros [] | constructor].
+  - inversion H as [|? ? Hni Hnd]; subst. destruct (keq k k0) eqn:E1; simpl.
+    + constructor; assumption.
+    + constructor; [|apply IH; assumption].
+      intros Hin. apply al_keys_in in Hin. destruct Hin as [Hin|Hin]; [|contradiction].
+      subst. rewrite keq_refl in E1. discriminate.
+Qed.
+
+Lemma al_in_get k (vs : list V) d :
+  NoDup (map fst d) -> In (k, vs) d -> al_get keq k d = vs.
+Proof.
+  induction d as [|[k0 vs0] r IH]; intros Hnd Hin; simpl in *; [contradiction|].
+  inversion Hnd as [|? ? Hni Hnd']; subst.
+  destruct Hin as [Heq|Hin].
+  - inversion Heq; subst. rewrite keq_refl. reflexivity.
+  - destruct (keq k k0) eqn:E; [|apply IH; assumption].
+    apply keq_spec in E. subst. exfalso. apply Hni. change k0 with (fst (k0, vs)). apply in_map. exact Hin.
+Qed.
+
+Variable A : Type.
+Variables (key : A -> K) (val : A -> V).
+Definition al_step (d : list (K * list V)) (a : A) := al_append keq (key a) (val a) d.
+
+Lemma al_fold_get k vis : forall d,
+  al_get keq k (fold_left al_step vis d) =
+  al_get keq k d ++ map val (filter (fun a => keq k (key a)) vis).
+Proof.
+  induction vis as [|a vis IH]; intros d; simpl.
+  - rewrite app_nil_r. reflexivity.
+  - rewrite IH. unfold al_step. rewrite al_get_append.
+    destruct (keq k (key a)); simpl; [rewrite <- app_assoc|]; reflexivity.
+Qed.
+
+Lemma al_fold_nodup vis : forall d, NoDup (map fst d) -> NoDup (map fst (fold_left al_step vis d)).
+Proof.
+  induction vis as [|a vis IH]; intros d H; simpl; [exact H|]. apply IH. apply al_keys_nodup. exact H.
+Qed.
+
+Lemma al_fold_keys x vis : forall d,
+  In x (map fst (fold_left al_step vis d)) <-> In x (map fst d) \/ In x (map key vis).
+Proof.
+  induction vis as [|a vis IH]; intros d; simpl; [intuition|].
+  rewrite IH. unfold al_step. rewrite al_keys_in. intuition.
+Qed.
+
+(* every stored list is exactly the values filed under its key, in order, and is not empty *)
+Lemma al_fold_entry k vs vis :
+  In (k, vs) (fold_left al_step vis []) ->
+  vs = map val (filter (fun a => keq k (key a)) vis) /\ vs <> [].
+Proof.
+  intros Hin.
+  assert (Hnd : NoDup (map fst (fold_left al_step vis []))) by (apply al_fold_nodup; constructor).
+  pose proof (al_in_get k vs _ Hnd Hin) as Hg. rewrite al_fold_get in Hg. simpl in Hg.
+  split; [symmetry; exact Hg|].
+  assert (Hk : In k (map fst (fold_left al_step vis []))).
+  { change k with (fst (k, vs)). apply in_map. exact Hin. }
+  apply al_fold_keys in Hk. destruct Hk as [[]|Hk].
+  apply in_map_iff in Hk. destruct Hk as (a & Ha & Hina).
+  subst vs. intros Hnil.
+  assert (Hf : In a (filter (fun a0 => keq k (key a0)) vis)).
+  { apply filter_In. split; [exact Hina|]. rewrite Ha. apply keq_refl. }
+  apply (in_map val) in Hf. rewrite Hnil in Hf. exact Hf.
+Qed.
+End ALfacts.
+
+Lemma oeqb_spec a b : oeqb a b = true <-> a = b.
+Proof.
+  destruct a, b; simpl; split; intros H; try discriminate; try reflexivity.
+  - apply Nat.eqb_eq in H. congruence.
+  - inversion H. apply Nat.eqb_refl.
+Qed.
+
+Lemma sa_eqb_spec a b : sa_eqb a b = true <-> a = b.
+Proof.
+  destruct a as [s x], b as [s' y]. unfold sa_eqb. simpl.
+  rewrite andb_true_iff, Nat.eqb_eq, oeqb_spec.
+  split; [intros [H1 H2]; congruence | intros H; inversion H; auto].
+Qed.
+
+(* ------------------------------------------------------------------ Monte-Carlo evaluation *)
+Definition visits (g : Q) (ts : list traj) : list (Q * (nat * option nat)) := flat_map (visits_of g) ts.
+(* the returns of the evaluation's own roll-outs observed from state s / after (s, a) *)
+Definition returns_at (g : Q) (ts : list traj) (s : nat) : list Q :=
+  map fst (filter (fun v => Nat.eqb s (fst (snd v))) (visits g ts)).
+Definition returns_at_sa (g : Q) (ts : list traj) (sa : nat * option nat) : list Q :=
+  map fst (filter (fun v => sa_eqb sa (snd v)) (visits g ts)).
+
+Theorem mc_tables_averages g n ts :
+  let R := mc_tables g n ts in
+  (* state values: one entry per visited state, the mean of the returns observed from it *)
+  NoDup (map fst (mc_state_value R)) /\
+  (forall s, In s (map fst (mc_state_value R)) <-> In s (map (fun v => fst (snd v)) (visits g ts))) /\
+  (forall s v, In (s, v) (mc_state_value R) -> v = mean (returns_at g ts s) /\ returns_at g ts s <> []) /\
+  (* occupancy: visit count / n *)
+  map fst (mc_occupancy R) = map fst (mc_state_value R) /\
+  (forall s o, In (s, o) (mc_occupancy R) -> o = qlen (returns_at g ts s) / inject_Z (Z.of_nat n)) /\
+  (* action values: one entry per visited (state, action), the mean of the returns after it *)
+  NoDup (map fst (mc_action_value R)) /\
+  (forall sa, In sa (map fst (mc_action_value R)) <-> In sa (map snd (visits g ts))) /\
+  (forall sa v, In (sa, v) (mc_action_value R) -> v = mean (returns_at_sa g ts sa) /\ returns_at_sa g ts sa <> []) /\
+  (* initial value: mean of the first returns *)
+  mc_initial_value R = mean (map (fun t => hd 0 (calc_returns (t_rewards t) g)) ts).
+Proof.
+  simpl. unfold mc_tables. simpl. fold (visits g ts).
+  set (vis := visits g ts).
+  assert (Hs : sv_samples vis =
+               fold_left (al_step Nat.eqb _ (fun v : Q * (nat * option nat) => fst (snd v)) fst) vis []) by reflexivity.
+  assert (Ha : av_samples vis =
+               fold_left (al_step sa_eqb _ (fun v : Q * (nat * option nat) => snd v) fst) vis []) by reflexivity.
+  repeat split.
+  - rewrite map_map. simpl. rewrite Hs. apply (al_fold_nodup Nat.eqb Nat.eqb_eq). constructor.
+  - rewrite map_map. simpl. rewrite Hs. intros H. apply (al_fold_keys Nat.eqb Nat.eqb_eq) in H.
+    destruct H as [[]|H]. exact H.
+  - rewrite map_map. simpl. rewrite Hs. intros H. apply (al_fold_keys Nat.eqb Nat.eqb_eq). right. exact H.
+  - apply in_map_iff in H. destruct H as ([k vs] & Heq & Hin). simpl in Heq. inversion Heq; subst.
+    rewrite Hs in Hin. apply (al_fold_entry Nat.eqb Nat.eqb_eq) in Hin. destruct Hin as [Hv _].
+    unfold returns_at. fold vis. rewrite <- Hv. reflexivity.
+  - apply in_map_iff in H. destruct H as ([k vs] & Heq & Hin). simpl in Heq. inversion Heq; subst.
+    rewrite Hs in Hin. apply (al_fold_entry Nat.eqb Nat.eqb_eq) in Hin. destruct Hin as [Hv Hne].
+    unfold returns_at. fold vis. rewrite <- Hv. exact Hne.
+  - rewrite !map_map. reflexivity.
+  - intros s o H. apply in_map_iff in H. destruct H as ([k vs] & Heq & Hin). simpl in Heq. inversion Heq; subst.
+    rewrite Hs in Hin. apply (al_fold_entry Nat.eqb Nat.eqb_eq) in Hin. destruct Hin as [Hv _].
+    unfold returns_at. fold vis. rewrite <- Hv. unfold qlen. reflexivity.
+  - rewrite map_map. simpl. rewrite Ha. apply (al_fold_nodup sa_eqb sa_eqb_spec). constructor.
+  - rewrite map_map. simpl. rewrite Ha. intros H. apply (al_fold_keys sa_eqb sa_eqb_spec) in H.
+    destruct H as [[]|H]. exact H.
+  - rewrite map_map. simpl. rewrite Ha. intros H. apply (al_fold_keys sa_eqb sa_eqb_spec). right. exact H.
+  - apply in_map_iff in H. destruct H as ([k vs] & Heq & Hin). simpl in Heq. inversion Heq; subst.
+    rewrite Ha in Hin. apply (al_fold_entry sa_eqb sa_eqb_spec) in Hin. destruct Hin as [Hv _].
+    unfold returns_at_sa. fold vis. rewrite <- Hv. reflexivity.
+  - apply in_map_iff in H. destruct H as ([k vs] & Heq & Hin). simpl in Heq. inversion Heq; subst.
+    rewrite Ha in Hin. apply (al_fold_entry sa_eqb sa_eqb_spec) in Hin. destruct Hin as [Hv Hne].
+    unfold returns_at_sa. fold vis. rewrite <- Hv. exact Hne.
+Qed.
+
+(* the roll-outs evaluate_on averages are n valid roll-outs from sampled starts, on one generator *)
+Definition valid_rollout (m : fmdp) (pi : policy) (cap : nat) (t : traj) : Prop :=
+  exists s, 0 < dweight (f_init m) s /\ chain_ok m pi s (fst t) (snd t) /\
+            (length (fst t) <= cap)%nat /\ ((length (fst t) < cap)%nat -> f_abs m (snd t) = true).
+
+Lemma sims_S m pi cap k st :
+  sims m pi cap (S k) st =
+  let '(tr, fin, st1) := run_on m pi None cap st in
+  let (rest, st2) := sims m pi cap k st1 in ((tr, fin) :: rest, st2).
+Proof. reflexivity. Qed.
+
+Lemma sims_valid m pi (Hwf : wf_setting m pi) (Hinit : wf_dist (f_init m)) cap n : forall st ts st',
+  good_stream st -> sims m pi cap n st = (ts, st') ->
+  length ts = n /\ Forall (valid_rollout m pi cap) ts /\ good_stream st'.
+Proof.
+  induction n as [|k IH]; intros st ts st' Hst Hs.
+  - simpl in Hs. inversion Hs; subst. repeat split; auto.
+  - rewrite sims_S in Hs.
+    destruct (run_on m pi None cap st) as [[tr fin] st1] eqn:E1.
+    destruct (sims m pi cap k st1) as [rest st2] eqn:E2. inversion Hs; subst. clear Hs.
+    simpl in E1. destruct (sample (f_init m) st) as [s st0] eqn:E0.
+    destruct (sample_pos (f_init m) st Hinit Hst) as [Hs0 Hst0]. rewrite E0 in Hs0, Hst0. simpl in Hs0, Hst0.
+    destruct (run_from_valid m pi Hwf cap s st0 tr fin st1 Hst0 E1) as (Hc & Hst1 & Hl & Hstop).
+    destruct (IH st1 rest st' Hst1 E2) as (Hlen & Hall & Hst').
+    repeat split; [simpl; congruence | | exact Hst'].
+    constructor; [|exact Hall]. exists s. simpl. auto.
+Qed.
+
+Theorem mc_evaluate_averages m pi (Hwf : wf_setting m pi) (Hinit : wf_dist (f_init m)) cap n st :
+  good_stream st ->
+  exists ts, length ts = n /\ Forall (valid_rollout m pi cap) ts /\
+             ts = fst (sims m pi cap n st) /\
+             mc_evaluate m pi cap n st = mc_tables (f_gamma m) n ts.
+Proof.
+  intros Hst. destruct (sims m pi cap n st) as [ts st'] eqn:E.
+  destruct (sims_valid m pi Hwf Hinit cap n st ts st' Hst E) as (H1 & H2 & _).
+  exists ts. unfold mc_evaluate. rewrite E. simpl. auto.
+Qed.
+
+(* ------------------------------------------------------------------ deterministic policy on deterministic MDP *)
+Definition is_det (d : dist) (x : nat) : Prop :=
+  match d with
+  | DDet y => y = x
+  | DUnif l => l <> [] /\ Forall (fun y => y = x) l
+  | DDict l => Forall (fun yw : nat * Q => 0 <= snd yw /\ (fst yw = x \/ snd yw == 0)) l /\
+               0 < qsum (map snd l)
+  end.
+
+Lemma is_det_wf d x : is_det d x -> wf_dist d.
+Proof.
+  destruct d as [l|l|y]; simpl; auto.
+  - intros [H1 H2]. split; [|exact H2]. eapply Forall_impl; [|exact H1]. simpl. tauto.
+  - tauto.
+Qed.
+
+Lemma det_sample d x st : is_det d x -> good_stream st -> fst (sample d st) = x.
+Proof.
+  intros Hd Hst. destruct d as [l|l|y]; simpl in *.
+  - destruct Hd as [Hall Htot].
+    destruct l as [|[y w] [|p r]].
+    + simpl in Htot. lra.
+    + simpl. simpl in Htot. inversion Hall as [|? ? [_ [H|H]] _]; subst; simpl in *; [reflexivity | lra].
+    + destruct (draw_good st Hst) as [[Hu0 Hu1] _].
+      destruct (draw st) as [u st'] eqn:E. simpl in Hu0, Hu1. simpl fst.
+      set (l := (y, w) :: p :: r) in *.
+      assert (Hnn' : Forall (fun w => 0 <= w) (map snd l)).
+      { clear -Hall. induction Hall; simpl; constructor; tauto. }
+      destruct (pick_pos (map snd l) Hnn' (u * qsum (map snd l))) as [Hi Hp].
+      * apply Qmult_le_0_compat; lra.
+      * nra.
+      * rewrite map_length in Hi.
+        change 0 with (snd (0%nat, 0)) in Hp at 2. rewrite map_nth in Hp.
+        assert (Hin : In (nth (pick (map snd l) (u * qsum (map snd l))) l (0%nat, 0)) l) by (apply nth_In; exact Hi).
+        rewrite Forall_forall in Hall. destruct (Hall _ Hin) as [_ [H|H]]; [exact H | lra].
+  - destruct Hd as [Hne Hall].
+    assert (Hn : (0 < Z.of_nat (length l))%Z) by (destruct l; [congruence | simpl length; lia]).
+    destruct (randbelow_good _ Hn st Hst) as [Hk _].
+    destruct (randbelow (Z.of_nat (length l)) st) as [k st'] eqn:E. simpl in *.
+    rewrite Forall_forall in Hall. apply Hall. apply nth_In. lia.
+  - exact Hd.
+Qed.
+
+Lemma det_sample_good d x st : is_det d x -> good_stream st -> good_stream (snd (sample d st)).
+Proof. intros Hd Hst. apply sample_pos; [eapply is_det_wf; eassumption | exact Hst]. Qed.
+
+Lemma det_expect d x f : is_det d x -> dexpect d f == f x.
+Proof.
+  intros Hd. destruct d as [l|l|y]; simpl in *.
+  - destruct Hd as [Hall Htot].
+    assert (H : qsum (map (fun xw : nat * Q => if Qeq_bool (snd xw) 0 then 0 else snd xw * f (fst xw)) l)
+                == qsum (map snd l) * f x).
+    { clear Htot. induction Hall as [|[y w] r [Hw Hy] Hr IH]; simpl; [ring|].
+      simpl in Hw, Hy. rewrite IH.
+      destruct (Qeq_bool w 0) eqn:E.
+      - apply Qeq_bool_iff in E. rewrite E. ring.
+      - destruct Hy as [Hy|Hy]; [subst; ring|].
+        apply Qeq_bool_iff in Hy. congruence. }
+    rewrite H. field. lra.
+  - destruct Hd as [Hne Hall].
+    assert (H : qsum (map f l) == qlen l * f x).
+    { unfold qlen. clear Hne. induction Hall as [|y r Hy Hr IH]; simpl length; [simpl; ring|].
+      subst. simpl qsum. rewrite IH. rewrite Nat2Z.inj_succ, <- Z.add_1_r, inject_Z_plus. ring. }
+    rewrite H. pose proof (qlen_pos l Hne) as Hp. unfold qlen in *. field. lra.
+  - subst. reflexivity.
+Qed.
+
+Section Det.
+Variable m : fmdp.
+Variable pi : policy.
+Hypothesis Hpol : forall s, f_abs m s = false -> exists a, is_det (pi s) a.
+Hypothesis Hmdp : forall s a, f_abs m s = false -> exists ns, is_det (f_next m s a) ns.
+
+(* the first return of a roll-out = the exact evaluation truncated at the cap, whatever the generator *)
+Lemma det_run_from cap : forall s st tr fin st',
+  good_stream st -> run_from m pi cap s st = (tr, fin, st') ->
+  hd 0 (calc_returns (t_rewards (tr, fin)) (f_gamma m)) == Vn m pi cap s /\ good_stream st'.
+Proof.
+  induction cap as [|c IH]; intros s st tr fin st' Hst Hrun; simpl in Hrun.
+  - inversion Hrun; subst. split; [|exact Hst]. rewrite hd_calc_returns. unfold csum. simpl. ring.
+  - destruct (f_abs m s) eqn:Habs.
+    + inversion Hrun; subst. split; [|exact Hst]. simpl Vn. rewrite Habs.
+      rewrite hd_calc_returns. unfold csum. simpl. ring.
+    + destruct (Hpol s Habs) as [a0 Ha0].
+      destruct (sample (pi s) st) as [a st1] eqn:E1.
+      pose proof (det_sample _ _ st Ha0 Hst) as Ea. pose proof (det_sample_good _ _ st Ha0 Hst) as Hst1.
+      rewrite E1 in Ea, Hst1. simpl in Ea, Hst1. subst a0.
+      destruct (Hmdp s a Habs) as [ns0 Hns0].
+      destruct (sample (f_next m s a) st1) as [ns st2] eqn:E2.
+      pose proof (det_sample _ _ st1 Hns0 Hst1) as En. pose proof (det_sample_good _ _ st1 Hns0 Hst1) as Hst2.
+      rewrite E2 in En, Hst2. simpl in En, Hst2. subst ns0.
+      destruct (run_from m pi c ns st2) as [[tr' fin'] st3] eqn:E3.
+      inversion Hrun; subst. clear Hrun.
+      destruct (IH ns st2 tr' fin st' Hst2 E3) as [IHv IHg]. split; [|exact IHg].
+      simpl Vn. rewrite Habs. rewrite (det_expect _ _ _ Ha0). rewrite (det_expect _ _ _ Hns0).
+      change (t_rewards (mkStep s a ns (f_rew m s a ns) :: tr', fin))
+        with (f_rew m s a ns :: t_rewards (tr', fin)).
+      rewrite (Forall2_Qeq_hd _ _ (calc_returns_cons _ _ _)). simpl hd. rewrite IHv. reflexivity.
+Qed.
+
+Lemma mean_const (l : list Q) v : l <> [] -> Forall (fun x => x == v) l -> mean l == v.
+Proof.
+  intros Hne Hall. unfold mean.
+  assert (H : qsum l == qlen l * v).
+  { unfold qlen. clear Hne. induction Hall as [|y r Hy Hr IH]; simpl length; [simpl; ring|].
+    simpl qsum. rewrite IH, Hy. rewrite Nat2Z.inj_succ, <- Z.add_1_r, inject_Z_plus. ring. }
+  rewrite H. pose proof (qlen_pos l Hne) as Hp. field. lra.
+Qed.
+
+Lemma det_sims s0 (Hinit : is_det (f_init m) s0) cap n : forall st ts st',
+  good_stream st -> sims m pi cap n st = (ts, st') ->
+  length ts = n /\
+  Forall (fun x => x == Vn m pi cap s0) (map (fun t => hd 0 (calc_returns (t_rewards t) (f_gamma m))) ts).
+Proof.
+  induction n as [|k IH]; intros st ts st' Hst Hs.
+  - simpl in Hs. inversion Hs; subst. split; [reflexivity | constructor].
+  - rewrite sims_S in Hs.
+    destruct (run_on m pi None cap st) as [[tr fin] st1] eqn:E1.
+    destruct (sims m pi cap k st1) as [rest st2] eqn:E2. inversion Hs; subst. clear Hs.
+    simpl in E1. destruct (sample (f_init m) st) as [s st0] eqn:E0.
+    pose proof (det_sample _ _ st Hinit Hst) as Es. pose proof (det_sample_good _ _ st Hinit Hst) as Hst0.
+    rewrite E0 in Es, Hst0. simpl in Es, Hst0. subst s.
+    destruct (det_run_from cap s0 st0 tr fin st1 Hst0 E1) as [Hv Hst1].
+    destruct (IH st1 rest st' Hst1 E2) as [Hlen Hall].
+    split; [simpl; congruence|]. simpl. constructor; assumption.
+Qed.
+
+(* simulation-based evaluation of a deterministic policy on a deterministic MDP reports exactly the
+   evaluation truncated at the step cap, for every generator and every number of simulations *)
+Theorem mc_deterministic_exact s0 (Hinit : is_det (f_init m) s0) cap n st :
+  good_stream st -> (0 < n)%nat ->
+  mc_initial_value (mc_evaluate m pi cap n st) == Vn m pi cap s0.
+Proof.
+  intros Hst Hn. unfold mc_evaluate. destruct (sims m pi cap n st) as [ts st'] eqn:E.
+  destruct (det_sims s0 Hinit cap n st ts st' Hst E) as [Hlen Hall].
+  unfold mc_tables. simpl. apply mean_const; [|exact Hall].
+  destruct ts; [simpl in Hlen; lia | simpl; discriminate].
+Qed.
+
+(* and every single roll-out is the same trajectory, whatever the generator *)
+Lemma det_run_same cap : forall s st st2 tr fin st' tr2 fin2 st2',
+  good_stream st -> good_stream st2 ->
+  run_from m pi cap s st = (tr, fin, st') -> run_from m pi cap s st2 = (tr2, fin2, st2') ->
+  tr = tr2 /\ fin = fin2.
+Proof.
+  induction cap as [|c IH]; intros s st stb tr fin st' tr2 fin2 stb' Hst Hstb H1 H2; simpl in H1, H2.
+  - inversion H1; inversion H2; subst. auto.
+  - destruct (f_abs m s) eqn:Habs.
+    + inversion H1; inversion H2; subst. auto.
+    + destruct (Hpol s Habs) as [a0 Ha0].
+      destruct (sample (pi s) st) as [a st1] eqn:E1. destruct (sample (pi s) stb) as [a' stb1] eqn:E1'.
+      pose proof (det_sample _ _ st Ha0 Hst) as Ea. pose proof (det_sample_good _ _ st Ha0 Hst) as Hst1.
+      pose proof (det_sample _ _ stb Ha0 Hstb) as Ea'. pose proof (det_sample_good _ _ stb Ha0 Hstb) as Hstb1.
+      rewrite E1 in Ea, Hst1. rewrite E1' in Ea', Hstb1. simpl in *. subst a a'.
+      destruct (Hmdp s a0 Habs) as [ns0 Hns0].
+      destruct (sample (f_next m s a0) st1) as [ns st2] eqn:E2.
+      destruct (sample (f_next m s a0) stb1) as [ns' stb2] eqn:E2'.
+      pose proof (det_sample _ _ st1 Hns0 Hst1) as En. pose proof (det_sample_good _ _ st1 Hns0 Hst1) as Hst2.
+      pose proof (det_sample _ _ stb1 Hns0 Hstb1) as En'. pose proof (det_sample_good _ _ stb1 Hns0 Hstb1) as Hstb2.
+      rewrite E2 in En, Hst2. rewrite E2' in En', Hstb2. simpl in *. subst ns ns'.
+      destruct (run_from m pi c ns0 st2) as [[tra fina] st3] eqn:E3.
+      destruct (run_from m pi c ns0 stb2) as [[trb finb] stb3] eqn:E3'.
+      inversion H1; inversion H2; subst.
+      destruct (IH _ _ _ _ _ _ _ _ _ Hst2 Hstb2 E3 E3') as [Ht Hf]. subst. auto.
+Qed.
+End Det.
+
+(* ------------------------------------------------------------------ non-vacuity: concrete instances *)
+Module Examples.
+(* 3 states (2 absorbing), 2 actions, stochastic dynamics with a zero entry, stochastic policy using
+   all three kinds of distribution, two-point initial distribution *)
+Definition ex_m : fmdp :=
+  mk_fmdp (DDict [(0%nat, 1#2); (1%nat, 1#2)])
+          [[DDict [(1%nat, 1#2); (2%nat, 1#2)]; DDict [(0%nat, 1#1)]];
+           [DDict [(2%nat, 1#1); (0%nat, 0#1)]; DDet 2]; []]
+          [(0%nat, 0%nat, 1%nat, (-1)#1); (0%nat, 0%nat, 2%nat, 3#1); (1%nat, 0%nat, 2%nat, 5#4)]
+          [false; false; true] (9#10).
+Definition ex_pi : policy := mk_pol [DDict [(0%nat, 1#3); (1%nat, 2#3)]; DUnif [0%nat; 1%nat]; DDet 0].
+Definition ex_st : stream := [1#4; 1#8; 3#8; 7#8; 1#2; 5#8; 1#16; 3#4].
+
+Lemma ex_init : wf_dist (f_init ex_m).
+Proof. simpl. split; [repeat constructor; simpl; lra | simpl; lra]. Qed.
+
+Lemma ex_wf : wf_setting ex_m ex_pi.
+Proof.
+  split.
+  - intros s _. destruct s as [|[|[|s]]]; simpl; auto;
+      try (split; [repeat constructor; simpl; lra | simpl; lra]); try discriminate.
+    destruct s; exact I.
+  - intros s a _ _. destruct s as [|[|[|s]]]; destruct a as [|[|a]]; simpl; auto;
+      try (split; [repeat constructor; simpl; lra | simpl; lra]);
+      try (destruct a; exact I); try (destruct s; exact I).
+Qed.
+
+Lemma ex_stream : good_stream ex_st.
+Proof. repeat constructor; simpl; lra. Qed.
+
+(* the hypotheses of rollout_valid / rollout_stops / mc_evaluate_averages hold here and the
+   roll-out is not trivial: two steps, ending in the absorbing state before the cap *)
+Example ex_run :
+  let '(tr, fin, rest) := run_on ex_m ex_pi None 5 ex_st in
+  (map st_s tr, map st_a tr, fin, length rest) = ([0%nat; 1%nat], [0%nat; 0%nat], 2%nat, 3%nat).
+Proof. vm_compute. reflexivity. Qed.
+
+Example ex_valid : exists s tr fin st',
+  run_on ex_m ex_pi None 5 ex_st = (tr, fin, st') /\ length tr = 2%nat /\
+  start_ok ex_m None s /\ chain_ok ex_m ex_pi s tr fin.
+Proof.
+  destruct (run_on ex_m ex_pi None 5 ex_st) as [[tr fin] st'] eqn:E.
+  destruct (rollout_valid ex_m ex_pi ex_wf ex_init None 5 ex_st tr fin st' ex_stream E) as (s & H1 & H2 & _).
+  exists s, tr, fin, st'. repeat split; auto.
+  assert (H : length (fst (fst (run_on ex_m ex_pi None 5 ex_st))) = 2%nat) by (vm_compute; reflexivity).
+  rewrite E in H. exact H.
+Qed.
+
+Example ex_mc : mc_initial_value (mc_evaluate ex_m ex_pi 5 2 ex_st) == 11#16.
+Proof. vm_compute. reflexivity. Qed.
+
+(* deterministic policy on a deterministic MDP, with zero-weight entries and every kind of distribution *)
+Definition ex_dm : fmdp :=
+  mk_fmdp (DDict [(1%nat, 0#1); (0%nat, 1#1)])
+          [[DDict [(1%nat, 1#1); (2%nat, 0#1)]; DDet 0];
+           [DDict [(2%nat, 1#1)]; DUnif [0%nat]]; []]
+          [(0%nat, 0%nat, 1%nat, (-1)#1); (1%nat, 0%nat, 2%nat, 5#4)]
+          [false; false; true] (1#2).
+Definition ex_dpi : policy := mk_pol [DDict [(1%nat, 0#1); (0%nat, 1#1)]; DUnif [0%nat]; DDet 0].
+
+Lemma ex_dpol : forall s, f_abs ex_dm s = false -> exists a, is_det (ex_dpi s) a.
+Proof.
+  intros s _. exists 0%nat. destruct s as [|[|[|s]]]; simpl.
+  - split; [repeat constructor; simpl; try lra; auto; right; reflexivity | simpl; lra].
+  - split; [discriminate | repeat constructor].
+  - reflexivity.
+  - destruct s; reflexivity.
+Qed.
+
+Lemma ex_dmdp : forall s a, f_abs ex_dm s = false -> exists ns, is_det (f_next ex_dm s a) ns.
+Proof.
+  intros s a _. destruct s as [|[|[|s]]]; destruct a as [|[|a]]; simpl.
+  - exists 1%nat. split; [repeat constructor; simpl; try lra; auto; right; reflexivity | simpl; lra].
+  - exists 0%nat. reflexivity.
+  - exists 0%nat. destruct a; reflexivity.
+  - exists 2%nat. split; [repeat constructor; simpl; try lra; auto | simpl; lra].
+  - exists 0%nat. split; [discriminate | repeat constructor].
+  - exists 0%nat. destruct a; reflexivity.
+  - exists 0%nat. reflexivity.
+  - exists 0%nat. reflexivity.
+  - exists 0%nat. destruct a; reflexivity.
+  - exists 0%nat. destruct s; reflexivity.
+  - exists 0%nat. destruct s; reflexivity.
+  - exists 0%nat. destruct s; destruct a; reflexivity.
+Qed.
+
+Lemma ex_dinit : is_det (f_init ex_dm) 0%nat.
+Proof. simpl. split; [repeat constructor; simpl; try lra; auto; right; reflexivity | simpl; lra]. Qed.
+
+(* hypotheses of mc_deterministic_exact hold; the value is -1 + (1/2)(5/4) = -3/8, not trivial *)
+Example ex_det : mc_initial_value (mc_evaluate ex_dm ex_dpi 5 3 ex_st) == (-3)#8 /\ Vn ex_dm ex_dpi 5 0 == (-3)#8.
+Proof.
+  pose proof (mc_deterministic_exact ex_dm ex_dpi ex_dpol ex_dmdp 0%nat ex_dinit 5 3 ex_st ex_stream ltac:(lia)) as H.
+  assert (Hv : Vn ex_dm ex_dpi 5 0 == (-3)#8) by (vm_compute; reflexivity).
+  split; [rewrite H; exact Hv | exact Hv].
+Qed.
+
+(* POMDP instance: the MDP above with two observations and a two-node controller *)
+Definition ex_pm : fpomdp :=
+  mk_fpomdp ex_m [[DDict [(0%nat, 1#4); (1%nat, 3#4)]; DDet 1; DUnif [0%nat; 1%nat]];
+                  [DDet 0; DDict [(1%nat, 1#1)]; DDet 0]].
+Definition ex_ctrl : ppolicy nat :=
+  mk_ctrl 0 [DDict [(0%nat, 1#2); (1%nat, 1#2)]; DDet 0] [[[1%nat; 0%nat]; [0%nat; 1%nat]]; [[1%nat; 1%nat]; [0%nat; 0%nat]]].
+
+Lemma ex_pwf : pwf_setting ex_pm ex_ctrl.
+Proof.
+  split; [|split].
+  - intros ag. destruct ag as [|[|ag]]; simpl; auto;
+      try (split; [repeat constructor; simpl; lra | simpl; lra]). destruct ag; exact I.
+  - intros s a _. destruct s as [|[|[|s]]]; destruct a as [|[|a]]; simpl; auto;
+      try (split; [repeat constructor; simpl; lra | simpl; lra]);
+      try (destruct a; exact I); try (destruct s; exact I).
+  - intros a ns. destruct a as [|[|a]]; destruct ns as [|[|[|ns]]]; simpl; auto;
+      try (split; [repeat constructor; simpl; lra | simpl; lra]); try discriminate;
+      try (destruct ns; exact I); try (destruct a; exact I).
+Qed.
+
+Example ex_prun :
+  let '(tr, fin, _, _) := prun_on false ex_pm ex_ctrl None None 5 [1#4] ex_st in
+  (length tr, fin) = (2%nat, (2%nat, 1%nat)).
+Proof. vm_compute. reflexivity. Qed.
+
+(* calc_returns on a concrete reward list: [1; 2; 4] with g = 1/2 gives [3; 4; 4] *)
+Example ex_returns : Forall2 Qeq (calc_returns [1; 2; 4] (1#2)) [3; 4; 4].
+Proof. repeat constructor; vm_compute; reflexivity. Qed.
+End Examples.
